@@ -252,6 +252,7 @@ def harness(cfg, ns, schedule_factory=None):
         # schedule-independence facts (C06)
         obls.append(Obl("no-sample-drawn-inside-a-job", not any(rec["drawn_in_job"]), rz))
         obls.append(Obl("no-rng-call-inside-a-job", rng.calls_in_job == 0, rz))
+        obls.append(Obl("no-generator-created-beside-the-seeded-global-state", rng.private_generators == 0, rz))
         return obls
 
     def reuse(ctx):
